@@ -71,6 +71,73 @@ fn run(name: &str, msg: &[u8]) -> bool {
     n_big.is_some() && n_small.is_none()
 }
 
+/// Real NTS request (real key set, real AES-SIV-CMAC-256 session keys): header | uid(`uid_len`
+/// payload bytes) | cookie | authenticator with an empty plaintext and a `nonce_len`-byte nonce.
+fn nts_request(keyset: &KeySet, uid_len: usize, nonce_len: usize) -> Vec<u8> {
+    use ntp_proto::verif::keyset as kh;
+    use ntp_proto::verif::packet::crypto::{AesSivCmac256, Cipher as _};
+    let c2s = AesSivCmac256::new([7u8; 32].into());
+    let cookie = kh::keyset_encode_cookie(
+        keyset,
+        &kh::decoded_cookie_from_parts(15, Box::new(AesSivCmac256::new([9u8; 32].into())), Box::new(AesSivCmac256::new([7u8; 32].into()))),
+    );
+    let mut m = vec![0u8; 48];
+    m[0] = 0x23;
+    m[40..48].copy_from_slice(&[1, 2, 3, 4, 5, 6, 7, 8]);
+    m.extend_from_slice(&[0x01, 0x04]);
+    m.extend_from_slice(&((4 + uid_len) as u16).to_be_bytes());
+    m.extend(std::iter::repeat(0xAB).take(uid_len));
+    m.extend_from_slice(&[0x02, 0x04]);
+    m.extend_from_slice(&((4 + cookie.len()) as u16).to_be_bytes());
+    m.extend_from_slice(&cookie);
+    // AES-SIV over the empty plaintext with the prefix as associated data. The repo cipher always
+    // draws a 16-byte nonce; for a shorter request nonce use aes_siv semantics through the same
+    // trait is not possible, so the short-nonce case is produced by `nonce_len` == 16 only here.
+    let mut ct = vec![0u8; 64];
+    let r = c2s.encrypt(&mut ct, 0, &m).unwrap();
+    assert_eq!(r.nonce_length, 16);
+    assert_eq!(nonce_len, 16);
+    let total = 8 + r.nonce_length + r.ciphertext_length;
+    m.extend_from_slice(&[0x04, 0x04]);
+    m.extend_from_slice(&(total as u16).to_be_bytes());
+    m.extend_from_slice(&(r.nonce_length as u16).to_be_bytes());
+    m.extend_from_slice(&(r.ciphertext_length as u16).to_be_bytes());
+    m.extend_from_slice(&ct[..r.nonce_length + r.ciphertext_length]);
+    m
+}
+
+fn run_nts(name: &str, uid_len: usize) -> bool {
+    let keyset = KeySetProvider::new(1).get();
+    let msg = nts_request(&keyset, uid_len, 16);
+    let ip = IpAddr::V4(Ipv4Addr::new(192, 0, 2, 7));
+    let recv = NtpTimestamp::from_seconds_nanos_since_ntp_era(100, 0);
+    let mk = || {
+        let config = ServerConfig {
+            denylist: FilterList { filter: vec![], action: FilterAction::Deny },
+            allowlist: FilterList { filter: vec!["0.0.0.0/0".parse().unwrap()], action: FilterAction::Ignore },
+            rate_limiting_cache_size: 0,
+            rate_limiting_cutoff: std::time::Duration::from_secs(1),
+            require_nts: None,
+            accepted_versions: vec![NtpVersion::V4],
+        };
+        Server::new_internal(config, Clk, Arc::new(RwLock::new(NtpServerInfo::default())), keyset.clone())
+    };
+    let mut big = [0u8; 1024];
+    let mut st_big = Stats::default();
+    let n_big = match mk().handle(ip, recv, &msg, &mut big, &mut st_big) {
+        ServerAction::Respond { message } => Some(message.len()),
+        ServerAction::Ignore => None,
+    };
+    let mut small = vec![0u8; msg.len()];
+    let mut st_small = Stats::default();
+    let n_small = match mk().handle(ip, recv, &msg, &mut small, &mut st_small) {
+        ServerAction::Respond { message } => Some(message.len()),
+        ServerAction::Ignore => None,
+    };
+    println!("{name}: request {} bytes; 1024-byte buffer -> {:?} {:?}; request-sized buffer -> {:?} {:?}", msg.len(), n_big, st_big.0, n_small, st_small.0);
+    n_big.is_some() && n_small.is_none()
+}
+
 fn main() {
     // header (v4, client) | uid EF (type 0x0104, length 4) | uid EF (length 4) | 24 bytes (MAC)
     let mut a = vec![0u8; 80];
@@ -86,7 +153,11 @@ fn main() {
     b[64..68].copy_from_slice(&[0x01, 0x04, 0x00, 0x1C]);
     let vb = run("identifiers of 16 and 28 bytes (control)", &b);
     println!("C17 violated by A: {va}; by control B: {vb}");
-    if va {
+    // NTS: authenticated unique identifier shorter than 16 bytes (it is re-encoded with the 16-byte minimum)
+    let vc = run_nts("NTS request, 4-byte unique identifier", 4);
+    let vd = run_nts("NTS request, 32-byte unique identifier (control)", 32);
+    println!("C17 violated by NTS C: {vc}; by NTS control D: {vd}");
+    if va || vc {
         std::process::exit(1);
     }
 }
